@@ -1,0 +1,54 @@
+//go:build verif
+
+// Contracts for package sender, checked by /verif/govc (contract-based
+// deductive verification). This file contains comments only: with the build
+// tag off it is invisible, with the tag on it adds nothing executable.
+
+package sender
+
+
+
+// ---------------------------------------------------------------- filter rules
+
+//@ func (*sender.filterRule).matches
+//@   pure
+
+//@ func sender.RecvFilterList
+//@   modifies rsyncwire.CountingReader.BytesRead, sender.filterRule.flag, sender.filterRule.pattern, sender.filterRuleList.Filters, E:*sender.filterRule
+
+//@ func sender.parseFilter
+//@   pure
+//@   ensures err == nil ==> result != nil
+
+// ---------------------------------------------------------------- signature header
+
+//@ func (*sender.Transfer).receiveSums
+//@   modifies rsyncwire.CountingReader.BytesRead
+//@   ensures err == nil ==> len(result.Sums) == result.ChecksumCount
+//@   ensures err == nil ==> result.ChecksumCount >= 0 && 0 <= result.BlockLength && result.BlockLength <= 536870912
+//@   ensures err == nil ==> 0 <= result.ChecksumLength && result.ChecksumLength <= 16
+//@   ensures err == nil ==> 0 <= result.RemainderLength && result.RemainderLength <= result.BlockLength
+//@   ensures [bl-positive] err == nil && result.ChecksumCount > 0 ==> result.BlockLength >= 1
+//@   ensures [sumlen] err == nil ==> forall i :: 0 <= i && i < len(result.Sums) ==> 0 <= result.Sums[i].Len && result.Sums[i].Len <= result.BlockLength
+//@   loop 0: invariant 0 <= i && i <= head.ChecksumCount && len(head.Sums) == head.ChecksumCount
+//@   loop 0: invariant head.ChecksumCount >= 0 && 0 <= head.BlockLength && head.BlockLength <= 536870912 && 0 <= head.ChecksumLength && head.ChecksumLength <= 16 && 0 <= head.RemainderLength && head.RemainderLength <= head.BlockLength
+//@   loop 0: invariant [bl-positive] head.ChecksumCount > 0 ==> head.BlockLength >= 1
+//@   loop 0: invariant [sumlen] forall k :: 0 <= k && k < i ==> 0 <= head.Sums[k].Len && head.Sums[k].Len <= head.BlockLength
+//@   loop 0: invariant 0 <= offset && offset <= i * 536870912
+
+// ---------------------------------------------------------------- file window
+
+//@ func sender.mapFile
+//@   pure
+//@   ensures result != nil && result.fileSize == len && result.pOffset == 0 && result.pLen == 0 && result.pSize == 0 && len(result.window) == 0
+//@   ensures result.defWindowSize >= 1024 && mod(result.defWindowSize, 1024) == 0
+
+//@ fieldinv progress.Printer.oldest: 0 <= v && v < 5
+
+// ---------------------------------------------------------------- file list (sender side)
+
+//@ func (*sender.filterRuleList).matches
+//@   pure
+
+//@ func (*sender.filterRuleList).addRule
+//@   modifies sender.filterRule.flag, sender.filterRule.pattern, sender.filterRuleList.Filters, E:*sender.filterRule
